@@ -78,7 +78,7 @@ class C13(HistoryProp):
             'followed by 0-3 uses of the fact in the same clause (also twice with incompatible arguments), then later '
             'queries from outside and the database read back; asserta/assertz, directly or through a variable-held goal; '
             '(b) API level: unify generators opened and kept open, YP.assert_fact of a term over the shared variables '
-            'under that stack, generators closed in generated (also non-LIFO) order, then queries. Observations compared '
+            'under that stack, generators closed in generated (also non-LIFO) order, then queries; (c) one case in three: two uses of one non-ground fact alive at the same time at the Python API (an enumeration and a retract or second enumeration), in half of them after 1-6 ground facts of the same predicate were asserted and retracted again. Observations compared '
             'with the reference model; additionally every unbound Variable OBJECT that appears in an answer must be new '
             '(fresh at every use: an object seen in an earlier use never comes back). Non-trivial = the asserted term has a variable that is bound through another '
             'variable or inside a structure at assert time, or the stored fact is non-ground and used >= 2 times; '
@@ -95,6 +95,17 @@ class C13(HistoryProp):
         ops = [['engine', E]]
         shapes = [lambda v: ('f', 'g', (v,)), lambda v: v, lambda v: ('f', '.', (('a', 'a'), v)), lambda v: ('f', 'g', (('f', 'f', (v,)),))]
         nf = 1 + src.n(3)
+        if src.n(2):
+            # the store has a past: ground facts that were asserted and retracted again before (their objects are gone;
+            # whatever was remembered about them must not be taken for a property of the facts that come after)
+            k = 1 + src.n(6)
+            for i in range(k):
+                ops.append(['assert', E, ('f', 'd', (src.pick(ATOMS),)), True])
+            if src.n(2):
+                ops.append(['run', E, ('f', 'retractall', (('f', 'd', (('v', 'R0'),)),)), 3])
+            else:
+                for i in range(k):
+                    ops.append(['run', E, ('f', 'retract', (('f', 'd', (('v', 'R0'),)),)), 1])
         for i in range(nf):
             if src.n(3) == 0:
                 ops.append(['assert', E, ('f', 'd', (src.pick(ATOMS),)), True])
@@ -119,7 +130,7 @@ class C13(HistoryProp):
         return {'ops': ops}
 
     def decode(self, src):
-        if src.n(6) == 5:
+        if src.n(6) >= 4:
             return self.decode_interleaved(src)
         ops = [['engine', E]]
         mode = src.n(3)
